@@ -555,6 +555,44 @@ class Monitor:
             return "np." + type(m).__name__
         return type(m).__name__
 
+    def _stress1(self, name, memo):
+        r = memo.get(name)
+        if r is None:
+            memo[name] = 0.0
+            try:
+                d = self.ureg._units[name]
+                r = 0.0
+                if not d.is_base:
+                    sc = abs(float(getattr(d.converter, "scale", 1) or 1))
+                    r = abs(math.log10(sc)) if sc > 0 and math.isfinite(sc) else 400.0
+                    for ref, e in d.reference.items():
+                        r += abs(float(e)) * self._stress1(ref, memo)
+            except Exception:  # noqa: BLE001
+                r = 400.0
+            memo[name] = r
+        return r
+
+    def range_stress(self, q, target):
+        """bound on how far pint's running product of scale ** exponent can wander from 1 while
+        converting between q's and target's units (sum of |exponent * log10(scale)| over every
+        leaf of both definition chains, plus the magnitude)."""
+        import numpy as np
+        memo = self.__dict__.setdefault("_stress_memo", {})
+        s = 0.0
+        for obj in (q, target):
+            for n, e in obj._units.items():
+                try:
+                    s += abs(float(e)) * self._stress1(n, memo)
+                except Exception:  # noqa: BLE001
+                    return 1e9
+        try:
+            m = abs(complex(np.max(np.abs(np.asarray(q.magnitude, dtype=complex)))))
+            if m > 0 and math.isfinite(m):
+                s += abs(math.log10(m))
+        except Exception:  # noqa: BLE001
+            pass
+        return s
+
     def mag_candidates(self, m, mspec, fam):
         """-> (set of acceptable texts, was a rewrite possible)"""
         import numpy as np
@@ -630,7 +668,12 @@ class Monitor:
         if target is None:
             rec.count("skipped_compact_unavailable")
             return None
-        if compact:
+        if compact and self.range_stress(q, target) > 290:
+            # pint multiplies scale ** exponent leaf by leaf through both definition chains; with
+            # partial products beyond ~1e+-290 the float accumulator goes denormal (observed:
+            # rontobohr_magneton ** 4 -> bohr_magneton ** 4 off by 1.8e-6): a limit of floats
+            rec.count("compact_value_not_comparable_float_range")
+        elif compact:
             try:
                 a = target.to(q.units).magnitude
                 b = q.magnitude
